@@ -289,8 +289,8 @@ func (g *G) GenPoolMgmtOp(universe []*RuleDef, cur SetModel, ver *int, kinds []i
 	switch o.Kind {
 	case OpFull, OpIncr:
 		k := g.Range(1, n)
-		if o.Kind == OpIncr && k > 3 {
-			k = g.Range(1, 3)
+		if o.Kind == OpIncr && k > 3 && !g.Pct(15) {
+			k = g.Range(1, 3) // mostly small batches; some as large as the universe
 		}
 		idx := make([]int, n)
 		for i := range idx {
